@@ -29,8 +29,17 @@ def known_findings(pid):
 
 
 def finding_matches(k, failure):
-    """a failure is a known finding only if class and failure mode both match"""
-    return k.get('class') == failure.get('class') and k.get('mode') == failure.get('mode')
+    """a failure is a known finding only if class and failure mode both match and, where the entry gives them, the
+    failing input and the observation match its regular expressions (so that a different violation of the same
+    property, or of the same class on another input shape, is still reported)"""
+    import re
+    if k.get('class') != failure.get('class') or k.get('mode') != failure.get('mode'):
+        return False
+    if k.get('input_regex') and not re.search(k['input_regex'], str(failure.get('input', ''))):
+        return False
+    if k.get('observed_regex') and not re.search(k['observed_regex'], str(failure.get('observed', ''))):
+        return False
+    return True
 
 
 def main(argv=None):
